@@ -9,6 +9,9 @@ import itertools
 import linecache
 import sys
 import time
+import warnings
+
+warnings.filterwarnings("ignore", category=SyntaxWarning)  # generated bodies such as "assert (a, b), msg" are deliberate
 
 from . import core, gen
 
@@ -60,6 +63,31 @@ CONTEXTS = {
     "two-calls": "return ({C}, {C})",
     "binop": "return ({C},) + ({C},)",
     "class-body": "class Z:\n    a = {C}\nreturn Z.a",
+    # further placements (wave 5)
+    "while-cond": "n = 0\nwhile n < 1 and {C}:\n    n += 1\nreturn n",
+    "assert": "assert {C}, tr('msg', 'm')\nreturn 1",
+    "augassign": "v = ()\nv += ({C},)\nreturn v",
+    "annassign": "v: tuple = {C}\nreturn v",
+    "starred-display": "return [tr('h', 0), *{C}]",
+    "dict-display-unpack": "return {{**{{'a': {C}}}, 'b': tr('b2', 2)}}",
+    "slice": "return (1, 2, 3)[len({C}) - 2:]",
+    "compare-chain": "return tr('lo', 0) < len({C}) < tr('hi', 9)",
+    "unary-not": "return not {C}",
+    "match-subject": "match {C}:\n    case (tag, *rest):\n        return tag, rest\n    case _:\n        return None",
+    "yield-from": "yield tr('y0', 0)\nyield from {C}",
+    "yield-value-used": "got = yield {C}\nyield got",
+    "except-handler": "try:\n    1 // tr('zero', 0)\nexcept ZeroDivisionError:\n    return {C}",
+    "try-else": "try:\n    tr('body', 0)\nexcept ValueError:\n    return None\nelse:\n    return {C}",
+    "with-body": "with ctx(tr('c', 1)):\n    return {C}",
+    "nested-class-method": "class Z:\n    def m(self):\n        return {C}\nreturn Z().m()",
+    "double-nested-def": "def g():\n    def h():\n        return {C}\n    return h()\nreturn g()",
+    "lambda-in-comprehension": "return [(lambda: {C})() for i in tr('it', [0, 1])]",
+    "nested-comprehension": "return [[{C} for i in [0]] for j in tr('it', [0, 1])]",
+    "starred-assign": "a, *b = {C}\nreturn a, b",
+    "call-star-arg": "return wrap(*{C})",
+    "nonlocal-target": "v = None\ndef g():\n    nonlocal v\n    v = {C}\ng()\nreturn v",
+    "return-in-loop": "for i in tr('it', [0, 1]):\n    if i:\n        return {C}\nreturn None",
+    "global-name-shadow": "wrap2 = wrap\nreturn wrap2({C}, q={C})",
 }
 THOROUGH_ONLY = {"class-body"}
 
@@ -299,7 +327,7 @@ def observe(side, get_fn, kind, context, fname):
     obs = {}
     try:
         fn = get_fn()
-        if context.split("+")[0] == "generator":
+        if context.split("+")[0] in ("generator", "yield-from", "yield-value-used"):
             g = fn(7)
             obs["lazy"] = list(side.trlog)  # nothing may run before the first next()
             res = list(g)
@@ -450,7 +478,9 @@ def main(tier):
         rule=f"bodies from the grammar context[call]: {len(CONTEXTS)} expression / statement contexts (return, assignment, argument, every "
              "comprehension position, lambda, nested def and their defaults, conditional and boolean operators incl. short-circuit, "
              "f-string, subscript / attribute base, walrus, try/finally, try/except around a failing call, generator, for, with, "
-             "decorator, raise after the call; thorough: class body, and depth 2 = each of 12 expression contexts around the call inside every statement context, for recurse / call_next on three kinds) x 11 call forms (positional, two, keyword, starred, "
+             "decorator, raise after the call, while / assert / augmented and annotated assignment, starred and ** displays, slice, comparison chain, "
+             "match subject, yield from, except / else / with bodies, method of a nested class, doubly nested def, lambda in a comprehension, "
+             "nested comprehension, starred assignment, nonlocal target; thorough: class body, and depth 2 = each of 12 expression contexts around the call inside every statement context, for recurse / call_next on three kinds) x 11 call forms (positional, two, keyword, starred, "
              "double-starred, nested in the first / a later / a keyword argument / both) x 4 special names (recurse, call_next, the function's own name, a renamed import) x 6 "
              "function kinds (module-level, closure instantiated twice, positional defaults, keyword-only defaults, method with "
              "self, lambda / generator expression in the signature); each built twice from one source text; compared: acceptance, result, exception, order and multiplicity of "
